@@ -197,6 +197,19 @@ pub fn ln64_ok(x: f64, r: f64) -> bool {
     if !(r >= lo && r <= hi) {
         return false;
     }
+    // (x-1)/x <= ln x <= x-1, used on [0.5, 2] where x-1 is exact (Sterbenz); 1e-6 slack for libm error
+    if x >= 0.5 && x < 1.0 {
+        let d = 1.0 - x;
+        if !(r <= -d * 0.999999 && r >= -d * 2.000002) {
+            return false;
+        }
+    }
+    if x > 1.0 && x <= 2.0 {
+        let d = x - 1.0;
+        if !(r >= d * 0.499999 && r <= d * 1.000001) {
+            return false;
+        }
+    }
     if x > 1.0 { r > 0.0 } else { r < 0.0 }
 }
 pub fn ln32_ok(x: f32, r: f32) -> bool {
@@ -222,6 +235,18 @@ pub fn ln32_ok(x: f32, r: f32) -> bool {
     let rd = r as f64;
     if !(rd >= lo && rd <= hi) {
         return false;
+    }
+    if x >= 0.5 && x < 1.0 {
+        let d = 1.0 - x as f64;
+        if !(rd <= -d * 0.9999 && rd >= -d * 2.0002) {
+            return false;
+        }
+    }
+    if x > 1.0 && x <= 2.0 {
+        let d = x as f64 - 1.0;
+        if !(rd >= d * 0.4999 && rd <= d * 1.0001) {
+            return false;
+        }
     }
     if x > 1.0 { r > 0.0 } else { r < 0.0 }
 }
@@ -424,6 +449,11 @@ pub fn pow64_ok(x: f64, y: f64, r: f64) -> bool {
     if r != r || r < 0.0 || (r == 0.0 && r.is_sign_negative()) {
         return false;
     }
+    // |log2 x^y| <= |y| (|e_x| + 1): no overflow / underflow while that stays below 1000
+    let lg = y.abs() * ((expo64(x).abs() + 1) as f64);
+    if lg <= 1000.0 && !(r >= f64::MIN_POSITIVE && r < inf && (expo64(r).abs() as f64) <= lg + 1.0) {
+        return false;
+    }
     if (x > 1.0) == (y > 0.0) { r >= 1.0 } else { r <= 1.0 }
 }
 pub fn pow32_ok(x: f32, y: f32, r: f32) -> bool {
@@ -478,6 +508,10 @@ pub fn pow32_ok(x: f32, y: f32, r: f32) -> bool {
         return if is_odd_int32(y) { r <= 0.0 } else { r >= 0.0 };
     }
     if r != r || r < 0.0 || (r == 0.0 && r.is_sign_negative()) {
+        return false;
+    }
+    let lg = y.abs() * ((expo32(x).abs() + 1) as f32);
+    if lg <= 120.0 && !(r >= f32::MIN_POSITIVE && r < inf && (expo32(r).abs() as f32) <= lg + 1.0) {
         return false;
     }
     if (x > 1.0) == (y > 0.0) { r >= 1.0 } else { r <= 1.0 }
@@ -632,3 +666,67 @@ pub fn c_fabs64(x: f64) -> f64 {
 pub fn c_fabs32(x: f32) -> f32 {
     f32::from_bits(x.to_bits() & 0x7fff_ffff)
 }
+
+// ---------------------------------------------------------------------------------------
+// std inherent float methods used by the concrete-f64 samplers (binomial, geometric,
+// hypergeometric): same contracts
+// ---------------------------------------------------------------------------------------
+pub fn c_powi64(x: f64, n: i32) -> f64 {
+    // powi(x, n) behaves like pow(x, n as f64) on the Annex-F rows used here
+    c_pow64(x, n as f64)
+}
+pub fn c_floor64(x: f64) -> f64 {
+    if x != x || x.is_infinite() || x.abs() >= 4503599627370496.0 {
+        return x;
+    }
+    let t = x as i64 as f64; // truncation toward zero, exact for |x| < 2^52
+    if t > x { t - 1.0 } else if t == 0.0 && x.is_sign_negative() { if x < 0.0 { -1.0 } else { -0.0 } } else { t }
+}
+pub fn c_floor32(x: f32) -> f32 {
+    if x != x || x.is_infinite() || x.abs() >= 8388608.0 {
+        return x;
+    }
+    let t = x as i32 as f32;
+    if t > x { t - 1.0 } else if t == 0.0 && x.is_sign_negative() { if x < 0.0 { -1.0 } else { -0.0 } } else { t }
+}
+
+/// Result of a constructor for the C04 judgement: None = Ok, Some(i) = Err(variant number i).
+/// `conds[i]` is the documented condition of variant i evaluated on the arguments.
+pub fn c04_judge<const N: usize>(res: Option<usize>, conds: [bool; N]) {
+    match res {
+        None => {
+            let mut i = 0;
+            while i < N {
+                vassert!(!conds[i], "constructor returned Ok although a documented error condition holds");
+                i += 1;
+            }
+        }
+        Some(v) => {
+            vassert!(v < N && conds[v], "constructor returned an error variant whose documented condition is false");
+        }
+    }
+}
+
+/// A proof harness with every libm entry point replaced by its contract (f32 and f64).
+macro_rules! vproof {
+    ($(#[$m:meta])* fn $name:ident() $body:block) => {
+        #[kani::proof]
+        #[kani::stub(libm::log, c_ln64)]
+        #[kani::stub(libm::logf, c_ln32)]
+        #[kani::stub(libm::exp, c_exp64)]
+        #[kani::stub(libm::expf, c_exp32)]
+        #[kani::stub(libm::pow, c_pow64)]
+        #[kani::stub(libm::powf, c_pow32)]
+        #[kani::stub(libm::sqrt, c_sqrt64)]
+        #[kani::stub(libm::sqrtf, c_sqrt32)]
+        #[kani::stub(libm::tan, c_tan64)]
+        #[kani::stub(libm::tanf, c_tan32)]
+        #[kani::stub(libm::fabs, c_fabs64)]
+        #[kani::stub(libm::fabsf, c_fabs32)]
+        #[kani::stub(libm::floor, c_floor64)]
+        #[kani::stub(libm::floorf, c_floor32)]
+        $(#[$m])*
+        fn $name() $body
+    };
+}
+pub(crate) use vproof;
